@@ -614,6 +614,7 @@ package corerad
 //@ macro raWireOK(ra) = wireDur(ra.RouterLifetime) && forall(k, 0, len(ra.Options), isType(ra.Options[k], "*ndp.PrefixInformation") ==> wireDur(as(ra.Options[k], "*ndp.PrefixInformation").ValidLifetime) && wireDur(as(ra.Options[k], "*ndp.PrefixInformation").PreferredLifetime))
 
 //@ func (*Monitor).handle
+//@   opt nobreak [C18]
 //@   ghost local tnow Int
 //@   requires P1: monOK(m) && msgOK(msg) && (isRA(msg) ==> raWireOK(as(msg, "*ndp.RouterAdvertisement")))
 //@   assigns new mem(*ndp.PrefixInformation), ghost.monReceived, ghost.monSamples, ghost.monDefaultRoute
@@ -650,6 +651,7 @@ package corerad
 //@ macro durSec(d) = real(d) / real(1000000000)
 
 //@ func collectMetrics
+//@   opt nobreak [C17]
 //@   requires P1: metrics != nil && forall(k, "Int", has(metrics, k) ==> knownConstMetric(k) && metrics[k] != nil)
 //@   requires P2: mctx.Advertisement != nil ==> optsOK(mctx.Advertisement.Options)
 //@   requires P3: forall(k, 0, len(mctx.Misconfigurations), mctx.Misconfigurations[k] == 1)
@@ -686,6 +688,7 @@ package corerad
 // constScrape: per configured interface read the live autoconf and forwarding
 // state, regenerate the RA with that forwarding flag and report on it.
 //@ func (*Metrics).constScrape
+//@   opt nobreak [C17]
 //@   requires P1: m.state != nil && metrics != nil && forall(k, "Int", has(metrics, k) ==> knownConstMetric(k) && metrics[k] != nil)
 //@   requires P2: forall(i, 0, len(m.ifis), ifiCfgOK(m.ifis[i]))
 //@   assigns new heap(ndp.RouterAdvertisement), new mem(ndp.Option), new heap(ndp.PrefixInformation), new heap(ndp.RouteInformation), new heap(ndp.RecursiveDNSServer), new heap(ndp.DNSSearchList), new heap(ndp.MTU), new heap(ndp.LinkLayerAddress), new mem(netip.Addr), new mem(netip.Prefix), new mem(system.IP), new mem(system.Route), new mem(config.Misconfiguration), new mem(*ndp.DNSSearchList), new mem(*ndp.PrefixInformation), new mem(*ndp.RecursiveDNSServer), new mem(*ndp.RouteInformation), ghost.clockRead, ghost.now, ghost.lastAddrs, ghost.lastRoutes, ghost.fwdVal, ghost.fwdName, ghost.fwdFresh, ghost.samples
@@ -866,6 +869,7 @@ package corerad
 // The closure Run hands to Dialer.Dial: prepare, initial RA, advertise, and on
 // cancellation the final RA - strictly after advertise has returned.
 //@ func (*Advertiser).Run$1
+//@   opt nobreak [C01]
 //@   ghost local advDone Bool
 //@   ghost local advErr Iface
 //@   ghost local sd Int
